@@ -162,6 +162,7 @@ def run(ctx):
     else:
         ctx.fn(core_poll)
         dom = core_poll.dominators(unwind=False)
+        sh = None
         ca = calls_to(core_poll, "waker_meta::check_activated")
         pe = [(bb, t) for bb, t in core_poll.calls() if t["callee"].get("method") == "poll_erased"]
         ok = len(ca) == 1 and len(pe) == 1 and ca[0][0] in dom[pe[0][0]]
@@ -191,6 +192,8 @@ def run(ctx):
                    f"every path from check_activated() == true reaches poll_erased before the next slot / the return: {okp}")
         # sub-context built from the slot's own waker
         cf = [(bb, t) for bb, t in core_poll.calls() if callee_key(t["callee"]).endswith("Context::from_waker")]
+        if pe and ca and sh is None:
+            sh = Slice(core_poll, through_calls=True).run(pe[0][1]["args"][0])
         ok = len(cf) == 1 and bool(Slice(core_poll, through_calls=True).run(cf[0][1]["args"][0])["locals"] & sh["locals"]) if pe and ca else False
         ctx.ob("R3.activation-protocol", "poll.sub-context-uses-slot-waker", ok, core_poll.loc(), "the contained future is polled with the slot's own waker")
         # parent installation
